@@ -134,6 +134,8 @@ pub fn main(tier: &str) -> i32 {
             "schedules_per_runtime": {RTS[0]: g(&evid[0], "schedules"), RTS[1]: g(&evid[1], "schedules"), RTS[2]: g(&evid[2], "schedules")},
             "cases_per_runtime": g(&evid[0], "cases"),
             "conformance": conformance,
+            "family_cases_also_run_on_real_tokio_and_found_among_explored_outcomes": evid[0]["coverage"]["traces_validated_against_impl"],
+            "clause_obligations_per_runtime": [evid[0]["coverage"]["clause_obligations"], evid[1]["coverage"]["clause_obligations"], evid[2]["coverage"]["clause_obligations"]],
             "machinery_errors": machinery,
         },
         "assumptions": evid[0]["assumptions"],
